@@ -67,7 +67,11 @@ class CommRun(lifecycle.Run):
             # the process's request for its broadcast subscription times out (tolerated, logged): it lives without that subscription, and
             # what it did subscribe to is given up at the end all the same
             self.base.fail_add_broadcast = kiwipy.TimeoutError('no answer to the subscription request')
-        communicator = communications.LoopCommunicator(self.base, loop) if self.case.get('wrap') else self.base
+        if self.case.get('wrap') == 'implicit':
+            # (wrapped without naming the loop, in the thread whose current loop is the one that serves the process)
+            communicator = communications.LoopCommunicator(self.base)
+        else:
+            communicator = communications.LoopCommunicator(self.base, loop) if self.case.get('wrap') else self.base
         self.ctl = pc.RemoteProcessThreadController(self.base)
         self.handler_calls = []
         self.status_calls = []
@@ -265,7 +269,7 @@ def gen_cases(tier, seed):
             yield {'kind': 'bfault', 'name': name, 'program': prog, 'plan': [], 'wrap': wrap, 'bfail': {}, 'sub_fault': 'timeout', 'drain': True, 'listener': False}
     # a message sent from a communicator thread while the loop is idle (blocked waiting for events) must still be handled
     P = programs.basic_programs()
-    for wrap in (False, True):
+    for wrap in (False, True, 'implicit'):
         for m in (['rpc', 'pause', 'ip'], ['rpc', 'kill', 'ik'], ['rpc', 'status', None], ['bcast', 'kill', 'ibk']):
             yield {'kind': 'idle', 'name': 'wait1', 'program': P['wait1'], 'msg': m, 'wrap': wrap}
         for m in (['rpc', 'play', None], ['bcast', 'play', None]):
